@@ -149,6 +149,21 @@ Theorem C13_cell_horizontal : forall x0 bsx widths c cs x w bw,
 Proof. exact cell_horizontal_spec. Qed.
 Print Assumptions C13_cell_horizontal.
 
+(* no cell has a negative used size, never smaller than the content's minimum:
+   the used content width of a cell is at least mc (mc = 0: non negative; mc =
+   min-content width of its content) exactly when the columns it spans, with
+   the spacing between them, cover mc plus the cell's own paddings and borders
+   -- the used ones, in the collapsing border model the halves of the collapsed
+   edges on BOTH sides.  Check/C13.v evaluates the right-hand side on every
+   laid-out cell (codes 20, 21, 23). *)
+Theorem C13_cell_content_fits : forall x0 bsx widths c cs x w bw mc,
+  (0 <= hc_gridx c)%Z -> (1 <= hc_colspan c)%Z ->
+  cell_horizontal exactQ widths (column_positions exactQ x0 bsx widths) bsx c = Ok (Some (cs, x, w, bw)) ->
+  let cols := sumQ (firstn (Z.to_nat cs) (skipn (Z.to_nat (hc_gridx c)) widths)) + inject_Z (cs - 1) * bsx in
+  (mc + (hc_pl c + hc_pr c + hc_bl c + hc_br c) <= cols <-> mc <= w).
+Proof. exact cell_content_fits. Qed.
+Print Assumptions C13_cell_content_fits.
+
 (* adjacent columns are exactly border-spacing apart *)
 Theorem C13_columns_adjacent : forall x0 bsx widths j,
   (S j < length widths)%nat ->
